@@ -111,7 +111,7 @@ def check_case(ctx, case):
             continue
         st = res.status
         what = f"{what0} at {S.show_point(p)}"
-        calls = [("at(Point)", lambda: M.call(S.build(s, mode).at, sm.Point(**p)))]
+        calls = [("at(Point)", lambda: M.call(lambda: S.build(s, mode).at(sm.Point(**p))))]
         if len(names) == 1 and names[0] in p:
             calls.append(("at(number)", lambda: M.call(S.build(s, mode).at, p[names[0]])))
         d_in_scope = True
@@ -123,7 +123,7 @@ def check_case(ctx, case):
             rr = R.NORMAL.evaluate(rs, p)
             r_in_scope[key] = not rr.oos
             if not rr.oos:
-                calls.append((f"returned_expression[{key}].at", (lambda robj=robj: M.call(robj.at, sm.Point(**p)))))
+                calls.append((f"returned_expression[{key}].at", (lambda robj=robj: M.call(lambda: robj.at(sm.Point(**p))))))
         for rn, ro in routes.items():
             if rn.endswith("_number") and var not in p:
                 continue
